@@ -78,7 +78,9 @@ class EquationParser(object):
             equation = equation.strip()
             # The marker is looked for in the code part of the line, or in a stand-alone comment line
             # (like '# Exogenous Variables'); a comment that trails an equation is just a comment.
-            if 'exogenous' in equation.lower() or (len(equation) == 0 and 'exogenous' in comment.lower()):
+            # (The word on its own: a variable that merely has it in its name - EXOGENOUS_G - does not make a line the marker.)
+            if re.search('(?<![a-z0-9_])exogenous(?![a-z0-9_])', equation.lower()) is not None or \
+                    (len(equation) == 0 and 'exogenous' in comment.lower()):
                 mode = 'exogenous'
                 continue
             if len(equation) == 0:
